@@ -219,6 +219,11 @@ def run_case(vk, p):
             if len(r) != n or any(len(s) != 1 for s in r):
                 fail("incomplete-or-tied-ranking", str(r))
                 break
+    if p.get("shuffle_slates"):
+        tags.append("slates-listed-in-another-order:monitors-only")
+        return {"req": None, "expect": None, "monitors": monitors, "tags": tags, "nontrivial": True}
+    if p.get("asym"):
+        tags.append("asymmetric-distance")
     return {"req": bgen.model_request(vk, p, obs), "expect": bgen.expect_profiles(p, obs), "monitors": monitors, "tags": tags,
             "nontrivial": len(cands) >= 2 and N >= 2}
 
